@@ -303,7 +303,7 @@ def gen_orderbook(rng, g, name, node, n_orders=None, full_exec=False, price_leve
     return {'type': 'OrderBook', 'name': name, 'nodes': [node], 'orders': o, 'full_exec': bool(full_exec), 'wacc': pick(rng, [0., 0., 0.1])}
 
 
-def gen_plant(rng, g, name, nodes, f, price_key, chp=False, simple=False, fuel=True):
+def gen_plant(rng, g, name, nodes, f, price_key, chp=False, simple=False, fuel=True, ramp_profiles=True):
     """Plant / CHPAsset spec with MIP features. nodes: [power, (heat), (fuel)]"""
     hi = pick(rng, [4., 6., 10.]); lo = pick(rng, [1., 2., 0.])
     a = {'type': 'CHPAsset' if chp else 'Plant', 'name': name, 'nodes': list(nodes), 'price': price_key,
@@ -325,6 +325,21 @@ def gen_plant(rng, g, name, nodes, f, price_key, chp=False, simple=False, fuel=T
             a['running_costs'] = r2(pick(rng, [0.5, 2.]) * f)
         if rng.random() < 0.5:
             a['ramp'] = r2(pick(rng, [1., 2., 3.]) * f)
+            if a.get('time_already_running') and rng.random() < 0.7:
+                a['last_dispatch'] = r2(pick(rng, [lo if lo > 0 else 1., hi, (lo + hi) / 2.]) * f)
+        if ramp_profiles and rng.random() < 0.35:
+            k = int(rng.integers(1, 3))
+            lows = sorted(r2(rng.uniform(0.1, 0.6) * hi * f) for _ in range(k))
+            a['start_ramp_lower_bounds'] = lows
+            a['start_ramp_upper_bounds'] = [r2(v * pick(rng, [1., 1.2])) for v in lows]
+            if rng.random() < 0.5:
+                a['shutdown_ramp_lower_bounds'] = lows[:1]
+                a['shutdown_ramp_upper_bounds'] = [r2(lows[0] * 1.1)]
+            if rng.random() < 0.3:
+                a['ramp_freq'] = g['unit']
+            a.pop('time_already_running', None); a.pop('last_dispatch', None)
+            if not a.get('time_already_off'):
+                a['time_already_off'] = r2(st)
     has_fuel = (len(nodes) == (3 if chp else 2))
     if has_fuel:
         a['fuel_efficiency'] = pick(rng, [1., 0.5, 0.4])
